@@ -415,6 +415,7 @@ type encCfg struct {
 	bufSize    int
 	headerSize byte
 	profileVer uint16
+	reuse      bool // the encoder was used before with another configuration and destination, then Reset (harness-side only; the model's encoder is always fresh)
 }
 
 func (r *rng) encCfg() encCfg {
